@@ -9,6 +9,15 @@
 //   kind "hull"  {pts:[[x,y]..], hull:[[x,y]..] (counter-clockwise cycle or []), area2}
 //   kind "hullx" {rects:[[x0,y0,x1,y1]..], pts, hull, area2}
 //   kind "simp"  {ring:[[x,y]..], tn, td, ref:[[x,y]..], nrem}
+//   kind "corner" {name, c:[[x,y]..] (integers, counter-clockwise), rot:[a,b,s] (rotation (a -b; b a)/s), mirror, hole,
+//                  box:[x0,y0,x1,y1], cls:[class of every corner], vars:[{jt, ml10, seg, n, cos4, dn, dd}..], rays, epts, mppm}
+//                 the polygon (mirrored, rotated; as the solid or as a hole in `box`) is offset by dn/dd.  The rule is
+//                 the specification's: S = the region (delta > 0) or its complement (delta < 0); a probe closer to S than
+//                 |delta|*cos4/10000 (Round; other joins: a probe in S or beside an edge of S, closer than |delta|) is
+//                 in the dilation of S, a probe farther than |delta| (other joins: miterLimit*|delta|) is not; probes in
+//                 between are not judged.  Probes: `rays` directions around every vertex and `epts` points on both sides
+//                 of every edge, at the two radii just outside that band (relative margin mppm/10^6).  This file only
+//                 measures the distance of a probe to the input polygon (long double) and its winding in the result.
 // Failure kinds (all owned by C12 unless marked):
 //   off:pixels    a pixel centre demanded inside is outside / demanded outside is inside / lies on the result's
 //                 boundary; for Miter on the lattice also "a pixel is only partly covered"
@@ -17,6 +26,7 @@
 //   off:monotone  a sample point inside Offset(d1) is outside Offset(d2), d1 < d2
 //   off:regular   the result is not `Regularized` (xsec.h) or a sample has winding number outside {0,1}
 //   off:finite    non-finite output
+//   off:corner    (corner family) a probe that the rule puts into / out of the dilation is on the wrong side of the result
 //   dec:partition / dec:outline / dec:hole / dec:area / dec:contours
 //   hull:empty / hull:rings / hull:subset / hull:contains / hull:convex / hull:extreme / hull:area
 //   simp:subseq / simp:close
@@ -512,6 +522,214 @@ void RunSimplify(const json& cs, Fails& F, long& evals) {
   JudgeSimplify(cs, {{{-10, -10}, {30, -10}, {30, 30}, {-10, 30}}, hole}, "ring as a hole", 3, F, evals, false);
 }
 
+// ---------------- corner-angle family ------------------------------------------
+struct Probe {
+  double x, y;
+  int vert;  // index of the corner the ray starts from, or -1 for a probe beside an edge
+  int ring;
+};
+void RunCorner(const json& cs, Fails& F, long& evals, long& probes) {
+  const double ra = cs["rot"][0], rb = cs["rot"][1], rs = cs["rot"][2];
+  const bool mirror = cs["mirror"].get<int>() != 0, hole = cs["hole"].get<int>() != 0;
+  auto T = [&](double x, double y) {
+    if (mirror) x = -x;
+    return vec2((ra * x - rb * y) / rs, (rb * x + ra * y) / rs);
+  };
+  // the polygon counter-clockwise after the transformation; cls follows the vertices
+  SimplePolygon ring;
+  std::vector<std::string> cls;
+  for (size_t i = 0; i < cs["c"].size(); i++) {
+    ring.push_back(T(cs["c"][i][0].get<double>(), cs["c"][i][1].get<double>()));
+    cls.push_back(cs["cls"][i]);
+  }
+  if (mirror) {
+    std::reverse(ring.begin(), ring.end());
+    std::reverse(cls.begin(), cls.end());
+  }
+  Polygons in;
+  std::vector<std::vector<std::string>> clsOf;
+  if (hole) {
+    const double x0 = cs["box"][0], y0 = cs["box"][1], x1 = cs["box"][2], y1 = cs["box"][3];
+    SimplePolygon box = {T(x0, y0), T(x1, y0), T(x1, y1), T(x0, y1)};
+    if (mirror) std::reverse(box.begin(), box.end());
+    in.push_back(box);
+    clsOf.push_back(std::vector<std::string>(4, "box"));
+    in.push_back(SimplePolygon(ring.rbegin(), ring.rend()));
+    clsOf.push_back(std::vector<std::string>(cls.rbegin(), cls.rend()));
+  } else {
+    in.push_back(ring);
+    clsOf.push_back(cls);
+  }
+  const CrossSection base(in);
+  {  // the constructor must keep the rings as they are (C11's business otherwise)
+    const Polygons inP = base.ToPolygons();
+    bool kept = inP.size() == in.size();
+    for (auto& r : in) {
+      bool found = false;
+      for (auto& q : inP) found = found || SameCycle(q, r);
+      kept = kept && found;
+    }
+    if (!kept) {
+      F.add("precond", 0, {{"why", "the constructor did not keep the input rings"}, {"polys", PolysJson(inP)}});
+      return;
+    }
+  }
+  const int rays = cs["rays"], epts = cs["epts"];
+  const LD m = cs["mppm"].get<double>() * 1e-6L;
+  const LD kTwoPi = 6.283185307179586476925286766559L;
+  size_t nvert = 0;
+  for (auto& r : in) nvert += r.size();
+  std::vector<Probe> pr;
+  std::vector<Sample> pts;
+  pr.reserve(nvert * (2 * rays + 4 * epts));
+  pts.reserve(nvert * (2 * rays + 4 * epts));
+  int vi = 0;
+  for (auto& v : cs["vars"]) {
+    vi++;
+    const std::string jt = v["jt"];
+    const bool round = jt == "Round";
+    const double ml = v["ml10"].get<double>() / 10.0;
+    const int seg = v["seg"];
+    const double d = v["dn"].get<double>() / v["dd"].get<double>();
+    const LD ad = std::fabs((LD)d);
+    const int step = vi;
+    json ctx = {{"jt", jt}, {"miterLimit", ml}, {"segments", seg}, {"delta", d}};
+    if (round && seg < 3 && Quality::GetCircularSegments(std::fabs(d)) != v["n"].get<int>()) {
+      ctx["why"] = "the default segment count is not the one the specification assumes";
+      ctx["n"] = Quality::GetCircularSegments(std::fabs(d));
+      F.add("note:defseg", step, ctx);
+      continue;
+    }
+    const LD cosq = round ? (LD)v["cos4"].get<double>() / 10000.0L : 1.0L;
+    const LD nearR = ad * cosq;                    // closer than this to S: in the dilation (Round)
+    const LD farR = ad * (round ? 1.0L : (LD)ml);  // farther than this from S: not in the dilation
+    // ---- probes
+    pr.clear();
+    pts.clear();
+    const LD radii[2] = {nearR * (1 - 2 * m), farR * (1 + 2 * m)};
+    for (size_t r = 0; r < in.size(); r++) {
+      const size_t n = in[r].size();
+      for (size_t i = 0; i < n; i++) {
+        const vec2 V = in[r][i], N = in[r][(i + 1) % n];
+        for (int k = 0; k < rays; k++) {
+          const LD th = kTwoPi * (k + 0.37L) / rays;
+          for (LD rad : radii) pr.push_back({(double)(V.x + rad * std::cos(th)), (double)(V.y + rad * std::sin(th)), (int)i, (int)r});
+        }
+        const LD ex = (LD)N.x - V.x, ey = (LD)N.y - V.y, el = std::sqrt(ex * ex + ey * ey);
+        for (int k = 0; k < epts; k++) {
+          const LD t = (k + 0.5L) / epts;
+          for (LD rad : {ad * (1 - 2 * m) * (round ? cosq : 1.0L), radii[1]})
+            for (int side = -1; side <= 1; side += 2)
+              pr.push_back({(double)(V.x + t * ex + side * rad * ey / el), (double)(V.y + t * ey - side * rad * ex / el), -1, (int)r});
+        }
+      }
+    }
+    for (size_t k = 0; k < pr.size(); k++) pts.push_back({pr[k].x, pr[k].y, (int)k});
+    // ---- the rule: 2 = in the dilation of S, 1 = not in it, 0 = not judged
+    const WF fin = WindFlags(in, pts);
+    std::vector<char> rule(pr.size(), 0);
+    std::vector<double> dist(pr.size(), 0);
+    for (size_t k = 0; k < pr.size(); k++) {
+      if (fin.onb[k]) continue;
+      const bool inS = (fin.w[k] > 0) == (d > 0);
+      const LD ds = inS ? 0 : BoundaryDist(in, vec2(pr[k].x, pr[k].y));
+      dist[k] = (double)ds;
+      if (round) {
+        if (ds < nearR * (1 - m)) rule[k] = 2;
+      } else {
+        bool beside = inS;  // in S, or swept by an edge of S moving |delta| along its normal away from S
+        for (size_t r = 0; r < in.size() && !beside; r++)
+          for (size_t i = 0; i < in[r].size() && !beside; i++) {
+            const vec2 a = in[r][i], b = in[r][(i + 1) % in[r].size()];
+            const LD ex = (LD)b.x - a.x, ey = (LD)b.y - a.y, L2 = ex * ex + ey * ey, L = std::sqrt(L2);
+            const LD t = ((pr[k].x - a.x) * ex + (pr[k].y - a.y) * ey) / L2;
+            // the solid is on the left of its edges: away from S is the right side for delta > 0, the left side for delta < 0
+            const LD h = ((pr[k].x - a.x) * ey - (pr[k].y - a.y) * ex) / L * (d > 0 ? 1 : -1);
+            if (t > m && t < 1 - m && h > 0 && h < ad * (1 - m)) beside = true;
+          }
+        if (beside) rule[k] = 2;
+      }
+      if (ds > farR * (1 + m)) rule[k] = 1;
+    }
+    // ---- the result
+    const CrossSection R = base.Offset(d, JoinOf(jt), ml, seg);
+    evals++;
+    const Polygons P = R.ToPolygons();
+    if (!AllFinite(P) || !std::isfinite(R.Area())) {
+      ctx["why"] = "non-finite output";
+      F.add("off:finite", step, ctx);
+      continue;
+    }
+    const WF fo = WindFlags(P, pts);
+    int nbad = 0, nw = 0, njudged = 0;
+    json first;
+    std::set<std::string> badCls;
+    for (size_t k = 0; k < pr.size(); k++) {
+      if (fo.w[k] < 0 || fo.w[k] > 1) nw++;
+      if (!rule[k]) continue;
+      njudged++;
+      const bool wantIn = (rule[k] == 2) == (d > 0);  // dilation of S = the result (delta > 0) or its complement (delta < 0)
+      const bool isIn = fo.w[k] > 0;
+      std::string why;
+      if (fo.onb[k]) why = "a judged probe lies on the boundary of the result";
+      else if (wantIn && !isIn) why = d > 0 ? "probe within delta (less the chordal error) of the region is outside the result"
+                                            : "probe farther than |delta| from the complement is outside the result";
+      else if (!wantIn && isIn) why = d > 0 ? "probe farther than the limit from the region is inside the result"
+                                            : "probe within |delta| (less the chordal error) of the complement is inside the result";
+      if (why.empty()) continue;
+      const std::string at = pr[k].vert < 0 ? "edge" : clsOf[pr[k].ring][pr[k].vert];
+      if (!nbad) first = {{"why", why}, {"x", pr[k].x}, {"y", pr[k].y}, {"distance", dist[k]}, {"at", at}};
+      badCls.insert(at);
+      nbad++;
+    }
+    probes += njudged;
+    if (nbad) {
+      ctx["why"] = first["why"];
+      ctx["first"] = first;
+      ctx["count"] = nbad;
+      ctx["judged"] = njudged;
+      ctx["n"] = v["n"];
+      ctx["via"] = badCls;
+      ctx["in"] = PolysJson(in);
+      ctx["polys"] = PolysJson(P, 96);
+      F.add("off:corner", step, ctx);
+    }
+    if (nw) {
+      json c2 = ctx;
+      c2["why"] = "sample points with winding number outside {0,1}";
+      c2["count"] = nw;
+      F.add("off:regular", step, c2);
+    }
+    RegularReport rr = Regularized(P);
+    if (!rr.why.empty()) {
+      json c2 = ctx;
+      c2["why"] = rr.why;
+      c2["where"] = rr.where;
+      c2["polys"] = PolysJson(P, 96);
+      F.add("off:regular", step, c2);
+    }
+    // every output vertex within limit*|delta| of the input's boundary
+    LD worst = 0;
+    vec2 wv(0, 0);
+    for (auto& rg : P)
+      for (auto& q : rg) {
+        const LD dq = BoundaryDist(in, q);
+        if (dq > worst) {
+          worst = dq;
+          wv = q;
+        }
+      }
+    if (worst > farR * (1 + 1e-9L) + 1e-12L) {
+      json c2 = ctx;
+      c2["why"] = "output vertex farther from the input than limit*|delta|";
+      c2["vertex"] = {wv.x, wv.y};
+      c2["distance"] = (double)worst;
+      c2["limit"] = (double)farR;
+      F.add("off:bound", step, c2);
+    }
+  }
+}
+
 int XoffMain(int argc, char** argv) {
   Args args(argc, argv, 2);
   if (args.pos.size() < 2) {
@@ -527,7 +745,7 @@ int XoffMain(int argc, char** argv) {
     const json& cs = cases[i];
     const std::string kind = cs["kind"];
     Fails F;
-    long evals = 0;
+    long evals = 0, probes = 0;
     int nt = 0;
     if (kind == "off") {
       RunOffset(cs, BuildRegion(cs, i), F, evals);
@@ -544,6 +762,9 @@ int XoffMain(int argc, char** argv) {
     } else if (kind == "simp") {
       RunSimplify(cs, F, evals);
       nt = cs["nrem"].get<int>() > 0;
+    } else if (kind == "corner") {
+      RunCorner(cs, F, evals, probes);
+      nt = 1;
     } else {
       fprintf(stderr, "unknown case kind %s\n", kind.c_str());
       return 2;
@@ -551,7 +772,9 @@ int XoffMain(int argc, char** argv) {
     if (!F.list.empty()) nfail++;
     nontrivial += nt;
     evalsAll += evals;
-    out.line({{"i", i}, {"fail", F.list}, {"nontrivial", nt}, {"evals", evals}});
+    json res = {{"i", i}, {"fail", F.list}, {"nontrivial", nt}, {"evals", evals}};
+    if (probes) res["probes"] = probes;
+    out.line(res);
   }
   out.line({{"done", true}, {"n", (long)cases.size() - from}, {"failed", nfail}, {"nontrivial", nontrivial}, {"evals", evalsAll}});
   return 0;
